@@ -181,3 +181,41 @@ func execClash(h *vh.H, op string, variant, reqStr string) string {
 	}
 	return strings.Join(out, " | ") + " | keys " + strings.Join(kl, " ")
 }
+
+// buildBigEnum: package e.v1 with `enum Currency { CURRENCY_UNSPECIFIED = 0; CURRENCY_C1 … }` (nOpts
+// values) and three messages using it as a scalar, in an array and through nested messages.
+func buildBigEnum(nOpts int) ([]protoreflect.MessageDescriptor, error) {
+	en := &descriptorpb.EnumDescriptorProto{Name: proto.String("Currency"), Value: []*descriptorpb.EnumValueDescriptorProto{
+		{Name: proto.String("CURRENCY_UNSPECIFIED"), Number: proto.Int32(0)}}}
+	for i := 1; i < nOpts; i++ {
+		en.Value = append(en.Value, &descriptorpb.EnumValueDescriptorProto{Name: proto.String("CURRENCY_C" + strconv.Itoa(i)), Number: proto.Int32(int32(i))})
+	}
+	fld := func(name string, num int32, typ descriptorpb.FieldDescriptorProto_Type, typeName string, repeated bool) *descriptorpb.FieldDescriptorProto {
+		f := &descriptorpb.FieldDescriptorProto{Name: proto.String(name), Number: proto.Int32(num), JsonName: proto.String(name),
+			Label: descriptorpb.FieldDescriptorProto_LABEL_OPTIONAL.Enum(), Type: typ.Enum()}
+		if typeName != "" {
+			f.TypeName = proto.String(typeName)
+		}
+		if repeated {
+			f.Label = descriptorpb.FieldDescriptorProto_LABEL_REPEATED.Enum()
+		}
+		return f
+	}
+	const E, M, S = descriptorpb.FieldDescriptorProto_TYPE_ENUM, descriptorpb.FieldDescriptorProto_TYPE_MESSAGE, descriptorpb.FieldDescriptorProto_TYPE_STRING
+	file := &descriptorpb.FileDescriptorProto{Name: proto.String("e/v1/e.proto"), Package: proto.String("e.v1"), Syntax: proto.String("proto3"),
+		EnumType: []*descriptorpb.EnumDescriptorProto{en},
+		MessageType: []*descriptorpb.DescriptorProto{
+			{Name: proto.String("Price"), Field: []*descriptorpb.FieldDescriptorProto{
+				fld("currency", 1, E, ".e.v1.Currency", false), fld("accepted", 2, E, ".e.v1.Currency", true), fld("note", 3, S, "", false)}},
+			{Name: proto.String("Wallet"), Field: []*descriptorpb.FieldDescriptorProto{
+				fld("prices", 1, M, ".e.v1.Price", true), fld("main", 2, E, ".e.v1.Currency", false)}},
+			{Name: proto.String("Ledger"), Field: []*descriptorpb.FieldDescriptorProto{
+				fld("wallet", 1, M, ".e.v1.Wallet", false), fld("settle", 2, E, ".e.v1.Currency", false), fld("others", 3, E, ".e.v1.Currency", true)}},
+		}}
+	fd, err := protodesc.NewFile(file, &protoregistry.Files{})
+	if err != nil {
+		return nil, err
+	}
+	ms := fd.Messages()
+	return []protoreflect.MessageDescriptor{ms.ByName("Price"), ms.ByName("Wallet"), ms.ByName("Ledger")}, nil
+}
